@@ -138,6 +138,33 @@ ESSENTIAL = [(-4, 7), (-4, 8), (-4, 11), (-3, 18), (-3, 21), (-3, 24), (-2, 19),
 DENSE = [(0, 18), (0, 21), (0, 1), (1, 19), (1, 9), (1, 24), (2, 20), (2, 13), (3, 22), (3, 6), (0, 16), (1, 4), (2, 0), (3, 27)]
 
 
+def inventory_bytes(key, layers, ones, zeros):
+    """rough size of the inventories a stack allocates over a vector with that many ones / zeros (the adaptive
+    constructors `new` / `span` choose their quantum by density and stay small; a fixed quantum does not)"""
+    total = 0
+    names = key.split("/")
+    for i, nm in enumerate(names):
+        lay = layers[i] if i < len(layers) else {}
+        cnt = zeros if nm.startswith("sz") else ones
+        if nm in ("sa", "sza") and lay.get("m") == "inv":
+            total += (cnt >> lay["a"]) * 8 * (1 + (1 << lay.get("b", 0)))
+        elif nm.startswith("sac") or nm.startswith("szac"):
+            L_, M_ = nm[3 if nm.startswith("sac") else 4:].split("_")
+            total += (cnt >> int(L_)) * 8 * (1 + (1 << int(M_)))
+    return total
+
+
+def affordable(si, ones, zeros, limit=3 << 30):
+    """the stack of index si, or the next one whose inventories stay below `limit` bytes on this vector (a selector
+    with one inventory entry per one over billions of ones would ask for tens of gigabytes: a property of the
+    script, not of the code)"""
+    for d in range(len(STACKS)):
+        key, layers = STACKS[(si + d) % len(STACKS)]
+        if inventory_bytes(key, layers, ones, zeros) <= limit:
+            return key, layers
+    return STACKS[0]
+
+
 def episodes(seed, count, big=False):
     r = random.Random(seed ^ 0xB16)
     vs = vectors(r, big)
@@ -154,6 +181,9 @@ def episodes(seed, count, big=False):
             else:
                 merged.append([s, e])
         runs = merged
+        ones = sum(e - s for s, e in runs)
+        if inventory_bytes(key, layers, ones, n - ones) > (3 << 30):
+            key, layers = affordable([k2 for k2, st in enumerate(STACKS) if st == (key, layers)][0], ones, n - ones)
         return {"fam": "rsbig", "src": "recipe", "len": L(n), "runs": [[L(s), L(e)] for s, e in runs], "key": key,
                 "layers": layers, "ops": [{"op": "build"}] + ops_for(r, n, runs), "budget_ms": 300000}
     for k in range(count):
